@@ -9,7 +9,7 @@ package main
 // fallback table is keyed by a devino value).  Source text is kept only for two bodies whose
 // statement order is itself the content (Mapper.QIDFor, localToQid); it is rendered by
 // go/printer and white-space normalised, so re-formatting does not change it.
-// coq/Fsx/FsGenSpec.v states the obligations over these definitions.
+// coq/Fsx/FsGenSpec19.v, FsGenSpec20.v states the obligations over these definitions.
 
 import (
 	"bytes"
